@@ -36,6 +36,8 @@ pub enum Op {
     SetMax(usize),
     Despawn,
     Yield,
+    /// harness-only: wait (without touching the API) until `n` asynchronous operations have completed
+    WaitCount(usize),
     PipeIn(usize, usize),
     Pipe(usize, usize, usize),
     Send(usize, usize),
@@ -79,6 +81,7 @@ impl Op {
             Op::SetMax(n) => write!(out, "setmax {} ", n).unwrap(),
             Op::Despawn => out.push_str("despawn "),
             Op::Yield => out.push_str("yield "),
+            Op::WaitCount(n) => write!(out, "waitcount {} ", n).unwrap(),
             Op::PipeIn(o, c) => write!(out, "pipein {} {} ", o, c).unwrap(),
             Op::Pipe(o, c, s) => write!(out, "pipe {} {} {} ", o, c, s).unwrap(),
             Op::Send(c, n) => write!(out, "send {} {} ", c, n).unwrap(),
@@ -95,7 +98,7 @@ impl Op {
             Op::Desync(..) => "desync", Op::Sync(..) => "sync", Op::TrySync(..) => "trysync", Op::FDesync(..) => "fdesync",
             Op::After(..) => "after", Op::FSync(..) => "fsync", Op::Suspend(..) => "suspend", Op::Await(..) => "await", Op::PollOnce(..) => "pollonce",
             Op::SyncF(..) => "syncf", Op::DropF(..) => "dropf", Op::Resume(..) => "resume", Op::Open(..) => "open",
-            Op::DropObj(..) => "dropobj", Op::SetMax(..) => "setmax", Op::Despawn => "despawn", Op::Yield => "yield",
+            Op::DropObj(..) => "dropobj", Op::SetMax(..) => "setmax", Op::Despawn => "despawn", Op::Yield => "yield", Op::WaitCount(..) => "waitcount",
             Op::PipeIn(..) => "pipein", Op::Pipe(..) => "pipe", Op::Send(..) => "send", Op::CloseCh(..) => "closech", Op::Next(..) => "next",
             Op::Drain(..) => "drain", Op::DropOut(..) => "dropout", Op::SetDepth(..) => "setdepth",
         }
@@ -170,6 +173,7 @@ impl<'a> Parser<'a> {
             "setmax" => Op::SetMax(self.num()?),
             "despawn" => Op::Despawn,
             "yield" => Op::Yield,
+            "waitcount" => Op::WaitCount(self.num()?),
             "pipein" => { let o = self.num()?; Op::PipeIn(o, self.num()?) }
             "pipe" => { let o = self.num()?; let c = self.num()?; Op::Pipe(o, c, self.num()?) }
             "send" => { let c = self.num()?; Op::Send(c, self.num()?) }
